@@ -171,6 +171,7 @@ func instrumentFile(p *packages.Package, f *ast.File, fn string, pristine bool) 
 		edits = append(edits, edit{fset.Position(pos).Offset, len(edits), text, 0})
 	}
 	keepAlive := map[string]bool{}
+	nonBlocking := map[ast.Node]bool{}
 	// replace the package-qualified function name of a call (e.g. time.Now) by a
 	// simulator function; the import stays used through a dummy reference
 	replaceSel := func(sel *ast.SelectorExpr, with, keep string) {
@@ -287,11 +288,36 @@ func instrumentFile(p *packages.Package, f *ast.File, fn string, pristine bool) 
 		case *ast.GoStmt:
 			census(n, "concurrency", "go statement")
 		case *ast.SelectStmt:
-			census(n, "concurrency", "select")
+			// a select with a default clause never blocks (a buffered channel used
+			// as a free list, a non-blocking notification): the serialised schedule
+			// stays intact; its communication statements are not census hits
+			hasDefault := false
+			for _, c := range n.Body.List {
+				if cc, ok := c.(*ast.CommClause); ok && cc.Comm == nil {
+					hasDefault = true
+				}
+			}
+			if hasDefault {
+				for _, c := range n.Body.List {
+					if cc, ok := c.(*ast.CommClause); ok && cc.Comm != nil {
+						ast.Inspect(cc.Comm, func(m ast.Node) bool {
+							if m != nil {
+								nonBlocking[m] = true
+							}
+							return true
+						})
+					}
+				}
+				census(n, "nonblocking-channel", "select with default (never blocks)")
+			} else {
+				census(n, "concurrency", "select")
+			}
 		case *ast.SendStmt:
-			census(n, "concurrency", "channel send")
+			if !nonBlocking[n] {
+				census(n, "concurrency", "channel send")
+			}
 		case *ast.UnaryExpr:
-			if n.Op == token.ARROW {
+			if n.Op == token.ARROW && !nonBlocking[n] {
 				census(n, "concurrency", "channel receive")
 			}
 		case *ast.CallExpr:
